@@ -80,6 +80,8 @@ func runJob(j Job) *Stats {
 		return pilePass(j.Mons)
 	case "closers":
 		return closersPass(j.Mons)
+	case "pkgvars":
+		return pkgVarsPass(j.Mons)
 	case "twins":
 		return twinsPass(j.Mons, j.Depth)
 	case "lits":
@@ -202,6 +204,48 @@ func scalePass(cfg Config, mons map[string]bool, n int, scenario string) *Stats 
 				}
 			}
 			h = append(h, push(5, "mid"), Op{Code: opMaintain}, Op{Code: opClose})
+			return h
+		})
+	case "records-sweep":
+		// (k) ONE event with k records, for every k from 1 to n, leaves the buffer while INCOMPLETE - pushed out by newer
+		// events (over capacity), by its timeout, by Close - or complete (EOE): the k records arrive in one callback
+		for k := 1; k <= n; k++ {
+			k := k
+			for _, how := range []string{"overflow", "timeout", "close", "eoe"} {
+				how := how
+				mk(fmt.Sprintf("one event with %d records leaves by %s", k, how), func() []Op {
+					var h []Op
+					for i := 0; i < k; i++ {
+						kind := "path"
+						if i == 0 {
+							kind = "mid"
+						}
+						h = append(h, push(10, kind))
+					}
+					switch how {
+					case "overflow":
+						for i := 0; i <= cfg.MaxInFlight; i++ {
+							h = append(h, push(20+i, "mid"))
+						}
+					case "timeout":
+						h = append(h, Op{Code: opTick, Delta: 5}, Op{Code: opMaintain})
+					case "eoe":
+						h = append(h, push(10, "eoe"))
+					}
+					h = append(h, Op{Code: opClose})
+					return h
+				})
+			}
+		}
+	case "below-head":
+		// (j) n incomplete events are buffered; then events BELOW all of them arrive: a complete one (delivered at once: it
+		// is the oldest and complete), an incomplete one and later its EOE, one more complete one between the two
+		mk("n incomplete events; a complete event below them; an incomplete one below that, its EOE; Close", func() []Op {
+			var h []Op
+			for i := 0; i < n; i++ {
+				h = append(h, push(100+i, "mid"))
+			}
+			h = append(h, push(50, "fin"), push(40, "mid"), push(45, "fin"), push(40, "eoe"), push(60, "mid"), push(60, "eoe"), Op{Code: opMaintain}, Op{Code: opClose})
 			return h
 		})
 	case "aged":
@@ -421,6 +465,9 @@ func buildJobs(prop, tier string) []interface{} {
 		jobs = append(jobs, Job{Mode: "scale", Scenario: "middle-insert", N: w + 500, Cfg: Config{MaxInFlight: w + 1000, TimeoutTicks: farTimeout, Base: 1<<32 - 700, Offsets: []uint32{0}, Kinds: []string{"mid"}, MaxRecs: 3, PostClose: 1}})
 		jobs = append(jobs, Job{Mode: "scale", Scenario: "gaps-one-maintain", N: w + 500, Cfg: Config{MaxInFlight: w + 1000, TimeoutTicks: 2, Base: 5, Offsets: []uint32{0}, Kinds: []string{"mid"}, MaxRecs: 3, PostClose: 1}})
 	}
+	jobs = append(jobs, Job{Mode: "scale", Scenario: "records-sweep", N: 1100, Cfg: Config{MaxInFlight: 2, TimeoutTicks: 2, Base: 5, Offsets: []uint32{0}, Kinds: []string{"mid"}, MaxRecs: 1 << 20, PostClose: 1}})
+	jobs = append(jobs, Job{Mode: "scale", Scenario: "below-head", N: 3000, Cfg: Config{MaxInFlight: 5000, TimeoutTicks: farTimeout, Base: 1<<32 - 2000, Offsets: []uint32{0}, Kinds: []string{"mid"}, MaxRecs: 3, PostClose: 1}})
+	jobs = append(jobs, Job{Mode: "scale", Scenario: "below-head", N: 40, Cfg: Config{MaxInFlight: 100, TimeoutTicks: farTimeout, Base: 5, Offsets: []uint32{0}, Kinds: []string{"mid"}, MaxRecs: 3, PostClose: 1}})
 	jobs = append(jobs, Job{Mode: "scale", Scenario: "middle-insert", N: 3000, Cfg: Config{MaxInFlight: 5000, TimeoutTicks: farTimeout, Base: 5, Offsets: []uint32{0}, Kinds: []string{"mid"}, MaxRecs: 3, PostClose: 1}})
 	// thresholds written into the tree under test (batch limits, per-event record limits, look-back
 	// windows ...): every integer constant 64..100000 found in reassembler.go gets its own scale scenarios
@@ -435,6 +482,7 @@ func buildJobs(prop, tier string) []interface{} {
 			wide.MaxInFlight = 2*n + 100
 			jobs = append(jobs, Job{Mode: "scale", Scenario: "fill", N: n, Cfg: Config{MaxInFlight: n, TimeoutTicks: farTimeout, Base: 5, Offsets: []uint32{0}, Kinds: []string{"mid"}, MaxRecs: 3, PostClose: 1}})
 			jobs = append(jobs, Job{Mode: "scale", Scenario: "gaps-one-push", N: n, Cfg: wide})
+			jobs = append(jobs, Job{Mode: "scale", Scenario: "below-head", N: n, Cfg: wide})
 			timed := wide
 			timed.TimeoutTicks = 2
 			jobs = append(jobs, Job{Mode: "scale", Scenario: "gaps-one-maintain", N: n, Cfg: timed})
@@ -548,6 +596,7 @@ func buildJobs(prop, tier string) []interface{} {
 		twinDepth = 7
 	}
 	jobs = append(jobs, Job{Mode: "twins", Depth: twinDepth})
+	jobs = append(jobs, Job{Mode: "pkgvars"})
 	// a Stream that re-enters the Reassembler from its callback: exactly-once / grouping (C01) and, after the
 	// outermost call has returned, the bound and "no complete event left at the head" (C10)
 	if prop == "C10" {
@@ -558,6 +607,17 @@ func buildJobs(prop, tier string) []interface{} {
 	}
 	if prop == "C19" {
 		jobs = append(jobs, Job{Mode: "closers"})
+	}
+	if prop == "C03" {
+		// a Stream that re-enters the Reassembler from its callbacks (the nested call releases several events while the outer
+		// one is still delivering its batch): per-call accounting is not defined there, the whole-history invariant is -
+		// nothing between the first and the highest delivered event goes missing unreported
+		only := map[string]bool{"M03/never-delivered-not-reported": true, "M03/panic-in-call": true}
+		for _, m := range []int{2, 3, 4} {
+			cfg := Config{MaxInFlight: m, TimeoutTicks: farTimeout, Base: 5, Offsets: []uint32{0, 1, 2, 4, 5}, Kinds: []string{"mid", "fin", "eoe"}, MaxRecs: 2, PostClose: 1, Reenter: true}
+			jobs = append(jobs, Job{Mode: "bfs", Cfg: cfg, MaxStates: maxStates, Mons: only})
+		}
+		jobs = append(jobs, Job{Mode: "bfs", Cfg: Config{MaxInFlight: 3, TimeoutTicks: 2, Base: 1<<32 - 3, Offsets: []uint32{0, 1, 2, 4}, Kinds: []string{"mid", "fin"}, Ticks: []int{3}, MaxRecs: 2, PostClose: 1, Reenter: true}, MaxStates: maxStates, Mons: only})
 	}
 	if prop == "C01" {
 		jobs = append(jobs, Job{Mode: "pileup"})
@@ -660,7 +720,9 @@ func check(prop, tier string) int {
 	jobs := buildJobs(prop, tier)
 	for i := range jobs {
 		j := jobs[i].(Job)
-		j.Mons = mons
+		if j.Mons == nil {
+			j.Mons = mons
+		}
 		jobs[i] = j
 	}
 	exhaustive := true
@@ -669,7 +731,7 @@ func check(prop, tier string) int {
 	// bounded passes first, closures last; once a violation has been reported the jobs not yet started are skipped (a
 	// change that makes the state space explode - a counter in the state - would otherwise run every closure into
 	// its cap): the run is then not exhaustive and says so
-	rank := map[string]int{"scale": 0, "closers": 0, "pileup": 0, "types": 0, "lits": 0, "twins": 1, "dfs": 2, "bfs": 3}
+	rank := map[string]int{"scale": 0, "closers": 0, "pkgvars": 0, "pileup": 0, "types": 0, "lits": 0, "twins": 1, "dfs": 2, "bfs": 3}
 	sort.SliceStable(jobs, func(a, b int) bool { return rank[jobs[a].(Job).Mode] < rank[jobs[b].(Job).Mode] })
 	var found atomic.Bool
 	skipped := 0
